@@ -272,6 +272,8 @@ fn main() {
             }
         };
         let _ = writeln!(out, "{}", reply);
+        // flushed per reply: when the process is killed or aborts, the replies received tell which line did it
+        let _ = out.flush();
     }
     let _ = out.flush();
 }
